@@ -18,16 +18,27 @@
 (***************************************************************************)
 EXTENDS Core
 
-CONSTANTS AsIs_D7, Scenarios
+CONSTANTS AsIs_D7, Scenarios,
+          GenLen        \* scenario 0: every pair of thread programs of this length over GenAlphabet is explored
 
-VARIABLES st, pc, sec, res, unlockedShared, scen
+VARIABLES st, pc, sec, res, unlockedShared, scen, prog
 
 Ev(e, a) == [e |-> e, a |-> a]
 ExpA(s, sh, m, t1, lo, hi, q1) == <<s, sh, m, t1[1], t1[2], 0, 0, 0, 0, 0, 0, 0, 0, 0, 0, 0, 100 * s, lo, hi, q1, 0>>
 
 \* ---- scenarios: prelude (sequential) and per-thread programs
+\* scenario 0: a sequence with a required first entry e1 (f(0)) and an optional-then-required second entry e2 (f(1), TIMES(1,2));
+\* the threads draw their operations from GenAlphabet
+GenAlphabet ==
+  {Ev("call", <<0, 1, 0, 0>>), Ev("call", <<0, 1, 1, 1>>), Ev("release", <<1>>), Ev("release", <<2>>),
+   Ev("iscompleted", <<1>>), Ev("qsat", <<2>>), Ev("qsatur", <<2>>)}
+GenPrograms == [1..GenLen -> GenAlphabet]
+
 Prelude(n) ==
-  CASE n = 1 -> <<Ev("mock", <<0>>), Ev("seq", <<1>>),
+  CASE n = 0 -> <<Ev("mock", <<0>>), Ev("seq", <<1>>),
+                  Ev("expect", ExpA(1, 5, 0, <<1, 0>>, 1, 1, 1)),
+                  Ev("expect", ExpA(2, 5, 0, <<1, 1>>, 1, 2, 1))>>
+    [] n = 1 -> <<Ev("mock", <<0>>), Ev("seq", <<1>>),
                   Ev("expect", ExpA(1, 5, 0, <<1, 0>>, 1, 1, 1)),        \* e1: f(0) first in sequence 1
                   Ev("expect", ExpA(2, 5, 0, <<1, 1>>, 1, 1, 1))>>       \* e2: f(1) second in sequence 1
     [] n = 2 -> <<Ev("mock", <<0>>), Ev("seq", <<1>>),
@@ -37,7 +48,8 @@ Prelude(n) ==
                   Ev("watch", <<1, 1, 1, 1, 0>>),                        \* monitor first in sequence 1
                   Ev("expect", ExpA(2, 5, 0, <<1, 1>>, 1, 1, 1))>>
 Programs(n) ==
-  CASE n = 1 -> << <<Ev("release", <<1>>)>>,
+  CASE n = 0 -> prog
+    [] n = 1 -> << <<Ev("release", <<1>>)>>,
                    <<Ev("call", <<0, 1, 0, 0>>), Ev("call", <<0, 1, 1, 1>>)>> >>
     [] n = 2 -> << <<Ev("ecreate", ExpA(2, 5, 0, <<1, 1>>, 0, 99, 1)), Ev("ereg", <<2, 1>>), Ev("elim", <<2>>), Ev("ehook", <<2, 0>>)>>,
                    <<Ev("call", <<0, 1, 1, 1>>), Ev("call", <<0, 1, 0, 0>>), Ev("iscompleted", <<1>>)>> >>
@@ -47,7 +59,7 @@ Programs(n) ==
     [] n = 4 -> << <<Ev("unwatch", <<1>>)>>,
                    <<Ev("iscompleted", <<1>>), Ev("call", <<0, 1, 1, 1>>)>> >>
 
-allvars == <<st, pc, sec, res, unlockedShared, scen>>
+allvars == <<st, pc, sec, res, unlockedShared, scen, prog>>
 Threads == 1..Len(Programs(scen))
 
 RECURSIVE FoldPre(_, _)
@@ -78,6 +90,7 @@ Proj(o) == [acc |-> o.acc, hd |-> o.hd, q |-> o.q, skip |-> o.skip,
 
 Init ==
   /\ scen \in Scenarios
+  /\ prog \in (IF scen = 0 THEN {<<a, b>> : a \in GenPrograms, b \in GenPrograms} ELSE {<<>>})
   /\ st = FoldPre(InitSt, Prelude(scen))
   /\ pc = [t \in Threads |-> 1]
   /\ sec = [t \in Threads |-> 1]
@@ -96,7 +109,7 @@ Next ==
                     /\ res' = [res EXCEPT ![t] = Append(@, Proj(r.obs))]       \* the op's own results come from its first section
                ELSE /\ sec' = [sec EXCEPT ![t] = 1] /\ pc' = [pc EXCEPT ![t] = @ + 1]
                     /\ res' = IF NSec(op) = 1 THEN [res EXCEPT ![t] = Append(@, Proj(r.obs))] ELSE res
-     /\ scen' = scen
+     /\ scen' = scen /\ prog' = prog
 Spec == Init /\ [][Next]_allvars
 
 AllDone == \A t \in Threads : pc[t] > Len(Programs(scen)[t])
